@@ -39,6 +39,15 @@ def c12(run):
     run.add(tlc, s)
     run.rule += ("  ||  and every pair of members of every class the rules name (30 punctuation marks, 36 consonants, 11 vowels, 10 vowel signs, "
                  "10 digits, the special signs and multi-code-point values: 107 values)%s x 16 settings" % (" followed by one of the 8 chain-level values" if d3 > 2 else ""))
+    # layout sweep: every value a key of the layout files can emit that NO class holds (nukta, avagraha, currency / fraction signs, ZWJ,
+    # ASCII symbols ...), before and after every class member and every other such value, then a backspace
+    tlc, s = run_tlc_replay(run, "MC_Fixed_layout", "MC_Fixed.tla",
+                            dict(spec="Spec", constants={"Depth": 3, "Alphabet": '"layout"'},
+                                 invariants=["ImplRefinesProp", "Emit"]),
+                            "C12", workers=6, threads=8)
+    run.add(tlc, s)
+    run.rule += ("  ||  layout sweep ('otherwise plain appending' holds for EVERY value a key can emit): each value of the layout file that no class of the "
+                 "rules holds, before and after every class member and every other such value, followed by a backspace, x 16 settings")
     fixed_trace(run, "compose")
     run.assumptions += ["class representatives stand for their class (one consonant etc.); edge characters on which "
                         "riti's tables and the Unicode chart differ are outside the normative alphabet",
